@@ -93,7 +93,7 @@ def explore_chunk(args):
             nxt = []
             for (sk, o, hist) in frontier:
                 for (act, tk) in LTS[sk]:
-                    o2 = copy.deepcopy(o) if act["a"] != "copy" else o
+                    o2 = fc.clone(o) if act["a"] != "copy" else o
                     o2, bad = step(o2, act, tk)
                     n_steps += 1
                     per_action[act["a"]] = per_action.get(act["a"], 0) + 1
@@ -187,7 +187,8 @@ def run(run, replay=None):
     else:
         product(run, [0, 1, 2], ["a", "b"], max_build=3, depth=4)
         product(run, [0, 1], ["a", "b", "c"], max_build=3, depth=4, tag="_3labels")
-    from . import c09_trace, c09_gap, c09_suite
+    from . import c09_trace, c09_gap, c09_suite, c09_pair
     c09_trace.run(run)
     c09_suite.run(run)
     c09_gap.run(run)
+    c09_pair.run(run)
